@@ -156,6 +156,22 @@ def enumerate_paths(body: List[ast.stmt], env: Optional[Dict[str, ast.AST]] = No
     return paths
 
 
+def _fold_isnan(t: ast.AST, p: Path) -> ast.AST:
+    """isnan(nan) is True; isnan(X) is False on a path that has already taken an ordering comparison of X as true (a comparison
+    with NaN is never true)"""
+    if isinstance(t, ast.Call) and len(t.args) == 1 and ((isinstance(t.func, ast.Attribute) and t.func.attr in ("isnan", "isna", "isnull")) or
+                                                         (isinstance(t.func, ast.Name) and t.func.id == "isnan")):
+        a = t.args[0]
+        at = ast.unparse(a)
+        if at in ("np.nan", "numpy.nan", "math.nan", "float('nan')", 'float("nan")', "np.NaN", "np.NAN"):
+            return ast.copy_location(ast.Constant(value=True), t)
+        for c, pol in p.conds:
+            if pol and isinstance(c, ast.Compare) and len(c.ops) == 1 and isinstance(c.ops[0], (ast.Lt, ast.LtE, ast.Gt, ast.GtE, ast.Eq)) and \
+                    at in (ast.unparse(c.left), ast.unparse(c.comparators[0])):
+                return ast.copy_location(ast.Constant(value=False), t)
+    return t
+
+
 def _fork(p: Path) -> Path:
     return Path(list(p.conds), list(p.effects), dict(p.env), p.exit, p.ret)
 
@@ -203,6 +219,7 @@ def _step(s: ast.stmt, p: Path, limit: int) -> List[Path]:
         pol0 = True
         while isinstance(t, ast.UnaryOp) and isinstance(t.op, ast.Not):
             t, pol0 = t.operand, not pol0
+        t = _fold_isnan(t, p)
         if isinstance(t, ast.Constant):
             taken = s.body if bool(t.value) == pol0 else s.orelse
             return _sub(taken, p, limit)
